@@ -17,7 +17,7 @@ import (
 
 func init() {
 	suites["om"] = suite{
-		rule: "C40: episodes over a fake server with a virtual clock. (1) script-level: hashSaveScript / jsonSaveScript with arbitrary ARGV (matching, stale and missing versions, verless, odd/even lengths = with/without PEXPIREAT, past/future expiry, non-canonical numerals, versions at the 10^14 printing limit) vs the Lean script models; (2) end-to-end: the real om.NewHashRepository / NewJSONRepository Save, Fetch, FetchCache (client-side cache with invalidation pushes), Remove on entities covering every converter of om/conv.go (int64, string, bool, *int64, *string, *bool, []byte, []float32, []float64, struct, *struct, []struct, time.Time exat) and a verless schema; every successful Save is followed by a Fetch and a '!fetch-after-save' oracle line answered by the specification (the saved entity with version+1); (2b) SaveMulti of 3 and 4 versioned entities in every pattern of fresh/stale members for both repositories ('!sm' oracle per member: ErrVersionMismatch iff the member was stale, a saved member's in-memory version is the stored one); (3) races: n goroutines Save the same version concurrently ('!race' oracle: exactly one wins, the rest ErrVersionMismatch, version+1, the stored entity is the winner's); non-trivial = distinct op",
+		rule: "C40: episodes over a fake server with a virtual clock. (1) script-level: hashSaveScript / jsonSaveScript with arbitrary ARGV (matching, stale and missing versions, verless, odd/even lengths = with/without PEXPIREAT, past/future expiry, non-canonical numerals, versions at the 10^14 printing limit) vs the Lean script models; (2) end-to-end: the real om.NewHashRepository / NewJSONRepository Save, Fetch, FetchCache (client-side cache with invalidation pushes), Remove on entities covering every converter of om/conv.go (int64, string, bool, *int64, *string, *bool, []byte, []float32, []float64, struct, *struct, []struct, time.Time exat) and a verless schema; every successful Save is followed by a Fetch and a '!fetch-after-save' oracle line answered by the specification (the saved entity with version+1); (2a) Saves whose reply is lost after the server ran the script (`save-lost`: the fake client re-sends commands marked retryable, as singleClient.Do does; the save script must run once and Save must report the transport error); (2b) SaveMulti of 3 and 4 versioned entities in every pattern of fresh/stale members for both repositories ('!sm' oracle per member: ErrVersionMismatch iff the member was stale, a saved member's in-memory version is the stored one); (3) races: n goroutines Save the same version concurrently ('!race' oracle: exactly one wins, the rest ErrVersionMismatch, version+1, the stored entity is the winner's); non-trivial = distinct op",
 		run:  runOm,
 		replay: func(c *Ctx, lines []string) {
 			ep := &omEp{}
@@ -332,6 +332,38 @@ func (e *omEp) op(c *Ctx, line string) {
 		e.lastSaveOK = err == nil
 		c.Hit("save:" + strings.Fields(saveAns(err, nv))[0])
 		c.Emit(line, saveAns(err, nv)+" "+e.dump(rkey), true)
+	case "save-lost": // save-lost e key ver exat fields…: the server runs the save script, the reply is lost on the way back
+		ver, _ := strconv.ParseInt(w[3], 10, 64)
+		exat, _ := strconv.ParseInt(w[4], 10, 64)
+		key := unhx(w[2])
+		ent := entFrom(key, ver, exat, w[5:])
+		armed := true
+		e.srv.fault = func(cl *fakeClient, cmd []string) int {
+			if armed && len(cmd) > 3 && strings.HasPrefix(strings.ToUpper(cmd[0]), "EVAL") &&
+				(cmd[1] == "57cb87169b4f86f0e1b751c3c0d250a94f5f152a" || strings.Contains(cmd[1], "HSET")) {
+				if strings.ToUpper(cmd[0]) == "EVALSHA" && !e.srv.loaded[cmd[1]] {
+					return 0 // the NOSCRIPT round comes first
+				}
+				armed = false
+				return 2
+			}
+			return 0
+		}
+		e.srv.takeLog()
+		err := e.hrepo.Save(ctx, ent)
+		e.srv.fault = nil
+		execs := 0
+		for _, l := range e.srv.takeLog() {
+			if l.name == "om.hashsave" {
+				execs++
+			}
+		}
+		if execs > 1 {
+			c.Fail("om:save-script-executed-twice", line, fmt.Sprintf("one Save executed the save script %d times on the server (a retry after a lost reply); Save reported %q, entity version %d", execs, saveAns(err, ent.Ver), ent.Ver))
+		}
+		e.lastSaveOK = false
+		c.Hit("save-lost:" + strings.Fields(saveAns(err, ent.Ver))[0])
+		c.Emit(line, fmt.Sprintf("%s %s execs=%d", strings.Fields(saveAns(err, ent.Ver))[0], e.dump("e:"+key), execs), true)
 	case "fetch", "fetchc", "!fetch-after-save":
 		key := unhx(w[2])
 		ans := ""
@@ -605,6 +637,20 @@ func runOm(c *Ctx) {
 		ep.op(c, afterSave(e2, 0))
 	}
 
+	// (0b) a save whose reply is lost: the script ran once, Save reports the transport error, the next Save on the
+	// stored version goes through
+	start()
+	{
+		e0 := &omEnt{ID: "lost", Ver: 0, S: "first"}
+		ep.op(c, saveLine(e0, 0))
+		e1 := &omEnt{ID: "lost", Ver: 1, S: "second"}
+		ep.op(c, "save-lost"+strings.TrimPrefix(saveLine(e1, 0), "save"))
+		ep.op(c, "fetch e "+hx("lost"))
+		e2 := &omEnt{ID: "lost", Ver: 2, S: "third"}
+		ep.op(c, saveLine(e2, 0))
+		ep.op(c, afterSave(e2, 0))
+	}
+
 	// (1) script level
 	hsArgs := func() []string {
 		vn := []string{"ver", "ver", "ver", "", "v2"}[r.IntN(5)]
@@ -675,6 +721,13 @@ func runOm(c *Ctx) {
 						delete(vers, key)
 					}
 				}
+			case x == 5 && r.IntN(2) == 0:
+				ver := vers[key]
+				e := randEnt(key, ver)
+				ep.op(c, "save-lost"+strings.TrimPrefix(saveLine(e, 0), "save"))
+				if got, err := ep.hrepo.Fetch(context.Background(), key); err == nil {
+					vers[key] = got.Ver
+				}
 			case x == 5:
 				ep.op(c, fmt.Sprintf("fetch e %s", hx(key)))
 			case x == 6:
@@ -730,7 +783,7 @@ func runOm(c *Ctx) {
 		}
 	}
 
-	// (2b) SaveMulti: batches of 3 and 4 versioned entities on distinct keys, every pattern of fresh / stale members
+	// (2a) Saves whose reply is lost after the server ran the script (`save-lost`: the fake client re-sends commands marked retryable, as singleClient.Do does; the save script must run once and Save must report the transport error); (2b) SaveMulti: batches of 3 and 4 versioned entities on distinct keys, every pattern of fresh / stale members
 	// (stale = the stored version was advanced by another Save), hash and JSON repositories
 	batch := 0
 	for _, n := range []int{3, 4} {
